@@ -547,7 +547,50 @@ func evalLarge(c Case) (info, error) {
 	}
 	inf.coverSize = len(set)
 	inf.reqTiles, inf.reqRows = len(set), 2
-	return inf, sm.verify(set)
+	if err := sm.verify(set); err != nil {
+		return inf, err
+	}
+	// the cover merged upward (covers up to 2^13 tiles, to keep the ladder cheap): a
+	// meridian- or parallel-aligned line of > 4096 tiles holds tiles thousands of
+	// rows / columns apart
+	if len(set) <= 1<<13+8 {
+		tiles := make([]maptile.Tile, 0, len(set))
+		for t, v := range set {
+			if v {
+				tiles = append(tiles, t)
+			}
+		}
+		for _, target := range []uint32{c.Target, c.Z - minU32(c.Z, 13)} {
+			if err := mergeLight(tiles, c.Z, target); err != nil {
+				return inf, err
+			}
+		}
+	}
+	return inf, nil
+}
+
+func minU32(a, b uint32) uint32 {
+	if a < b {
+		return a
+	}
+	return b
+}
+
+// mergeLight: MergeUp and MergeUpPartial(4) of the tiles, each judged by verifyMerge.
+func mergeLight(in []maptile.Tile, Z, target uint32) error {
+	inSet := mkSet(in)
+	out := members(tilecover.MergeUp(mkSet(in), maptile.Zoom(target)))
+	if err := verifyMerge(inSet, out, Z, target); err != nil {
+		return fmt.Errorf("MergeUp(cover of %d tiles at zoom %d, %d): %v", len(in), Z, target, err)
+	}
+	outP := members(tilecover.MergeUpPartial(mkSet(in), maptile.Zoom(target), 4))
+	if err := verifyMerge(inSet, outP, Z, target); err != nil {
+		return fmt.Errorf("MergeUpPartial(cover of %d tiles at zoom %d, %d, 4): %v", len(in), Z, target, err)
+	}
+	if t, ok := sameSet(out, outP); !ok {
+		return fmt.Errorf("MergeUp and MergeUpPartial(count=4) disagree on tile %v", t)
+	}
+	return nil
 }
 
 // largeTiles: the first size tiles, row-major, of the aligned W x W block
